@@ -189,3 +189,15 @@ package cty
 //@   requires (and (wf_deep val) (not (is_null val)))
 //@   panics[C02] (or (is_marked val) (not (is_bool_ty (vty val))) (not (is_known val)))
 //@   ensures[C02] (= result (not (bool_of val)))
+//
+// HasElement (C01): for a set and a value of its element type, a known False is answered only when both the
+// set and the given value are wholly known (a member or a part that is still unknown may turn out to
+// match); the result is a bool, never null, and marked exactly as the operands are.
+//@ func (cty.Value).HasElement
+//@   tags C01 C04
+//@   may_panic
+//@   requires (and (wf_deep val) (wf_deep elem))
+//@   let plainops (and (not (is_marked val)) (not (is_marked elem)))
+//@   ensures[C01] false_only_if_decided: (=> (and plainops (is_set_ty (vty val)) (ty_eq (vty elem) (elem_ty (vty val))) (bool_payload result false)) (and (wholly_known val) (wholly_known elem)))
+//@   ensures[C01] type: (=> plainops (and (is_bool_ty (vty result)) (not (is_null result)) (not (is_marked result))))
+//@   ensures[C04] marks_kept: (forall ((k Any)) (! (=> (or (select (marks_of val) k) (select (marks_of elem) k)) (select (marks_of result) k)) :pattern ((select (marks_of result) k))))
